@@ -31,6 +31,7 @@ fn main() {
         "lspx" => lspx::run_lspx(rest),
         "lspx-one" => lspx::run_lspx_one(rest),
         "resolve" => lspx::run_resolve(rest),
+        "lsprange" => lspx::run_lsprange(rest),
         "hashorder" => {
             // witness for C12: the iteration order of std HashMaps created in this process (depends on the hash seed)
             let mut m2: std::collections::HashMap<String, u8> = std::collections::HashMap::new();
